@@ -172,7 +172,8 @@ def execute(ctx, case):
     try:
         got = call(db, q)
     except Exception as ex:
-        contracts.drain()
+        for v in contracts.drain():
+            report(ctx, case, "contract " + v.get("contract", "?"), v)
         report(ctx, case, "raised", {"why": "query raised %s" % (repr(ex)[:300],), "expected": lower[:30]})
         return {"expected": len(lower), "touch": False}
     present, nb = bin_clause()
